@@ -1,17 +1,52 @@
-(* C14: property theorems.  Statements only; every proof is `exact` of a lemma in Proofs/. *)
+(* C14 -- Multistage RAM/disk split changes only labels and minimises disk traffic
+   Property theorems only: each proof is one application of a lemma proved in Proofs/, followed by Print Assumptions. *)
 From Coq Require Import ZArith List Bool.
-From CS Require TopK.
+From CS Require TopK AllocProofs.
+From CS Require Import Actions NAdvance Multistage Exec Sched RunFacts Projections BasicInv MultistageRun TLBridge.
 Import ListNotations.
 Open Scope Z_scope.
 
-(* the first k of a descending list maximise the sum over all k-sub-multisets *)
-Module M_C14_topk_max.
+(* the labels of a constructed Multistage schedule: all RAM or DISK, min(ram+disk, N-1) of them, at most min(ram, N-1) RAM and at most min(disk, N-1) DISK *)
+Module M_C14_construct_labels.
+Import AllocProofs.
+Theorem C14_construct_labels :
+  forall (N ram disk : Z) (tj : NAdvance.traj) (c : Multistage.cfg),
+         1 <= N ->
+         0 <= ram ->
+         0 <= disk ->
+         Multistage.construct N ram disk tj = Actions.Ok c ->
+         Multistage.max_n c = N /\
+         Multistage.tr c = tj /\
+         Forall (fun l : Actions.storage => l = Actions.RAM \/ l = Actions.DISK) (Multistage.labels c) /\
+         Multistage.total c = Z.min (Z.min ram (N - 1) + Z.min disk (N - 1)) (N - 1) /\
+         Multistage.count_st Actions.RAM (Multistage.labels c) <= Z.min ram (N - 1) /\
+         Multistage.count_st Actions.DISK (Multistage.labels c) <= Z.min disk (N - 1).
+Proof. exact (@AllocProofs.construct_labels). Qed.
+Print Assumptions C14_construct_labels.
+End M_C14_construct_labels.
+
+(* exactly min(ram, #positions) positions are labelled RAM *)
+Module M_C14_alloc_labels_facts.
+Import AllocProofs.
+Theorem C14_alloc_labels_facts :
+  forall (w : list Z) (r : nat),
+         Forall (fun l : Actions.storage => l = Actions.RAM \/ l = Actions.DISK) (alloc_labels w r) /\
+         length (alloc_labels w r) = length w /\
+         length (filter (Actions.st_eqb Actions.RAM) (alloc_labels w r)) = Nat.min r (length w) /\
+         length (filter (Actions.st_eqb Actions.DISK) (alloc_labels w r)) =
+         (length w - Nat.min r (length w))%nat.
+Proof. exact (@AllocProofs.alloc_labels_facts). Qed.
+Print Assumptions C14_alloc_labels_facts.
+End M_C14_alloc_labels_facts.
+
+(* PARTIAL: the first k of a descending list maximise the sum over all k-sub-multisets; the glue (weights = access counts of the stream; labels-only simulation) is not proved *)
+Module M_C14_topk_max_partial.
 Import TopK.
-Theorem C14_topk_max :
+Theorem C14_topk_max_partial :
   forall L : list Z,
          Desc L ->
          forall M rest : list Z, Permutation.Permutation L (M ++ rest) -> sum M <= sum (firstn (length M) L).
 Proof. exact (@TopK.topk_max). Qed.
-Print Assumptions C14_topk_max.
-End M_C14_topk_max.
+Print Assumptions C14_topk_max_partial.
+End M_C14_topk_max_partial.
 
